@@ -117,7 +117,7 @@ Proof. intros. cbn. replace (32 <=? w) with true by (symmetry; apply Z.leb_le; l
 Lemma cast_ok T T0 x : ok T x = true -> (int_ty T = true \/ T = CBool \/ ptr_ty T = true \/ T = CFlt) ->
   cast T (T0, x) = (T, x).
 Proof.
-  intros Hx HT. destruct T as [w sg | | sz | |]; cbn in *.
+  intros Hx HT. destruct T as [w sg | | sz rp | |]; cbn in *.
   - destruct HT as [HT | [HT | [HT | HT]]]; try discriminate. rewrite norm_id; auto.
   - bools; subst; reflexivity.
   - reflexivity.
@@ -355,7 +355,7 @@ Ltac simp :=
   cbn [cast fst snd is_integral unsigned_of widen_flt r_st r_ret r_a1 obind arg_ty Z.eqb Pos.eqb].
 
 Ltac expose :=
-  autounfold with c19gen; std_unfold; unfold clit, int_t, ptrdiff_t, ctrue, cfalse, cvoid; simp.
+  autounfold with c19gen; std_unfold; unfold clit, int_t, ptrdiff_t, uintptr_t, ctrue, cfalse, cvoid; simp.
 
 Ltac pdef :=
   unfold plain_defined;
@@ -387,8 +387,8 @@ Ltac bstep :=
       rewrite (ceq_TT S w sg x y Hw) by assumption; cbn [obind]; cbv beta
   | |- context [beq (?T, ?x) (?T', ?y)] => unfold beq; cbn [snd obind]; cbv beta
   | |- context [ceq ?S (CBool, ?x) (CBool, ?y)] => rewrite (ceq_bool S x y) by reflexivity; cbn [obind]; cbv beta
-  | |- context [ceq ?S (CPtr ?sz, ?x) (CPtr ?sz', ?y)] =>
-      change (ceq S (CPtr sz, x) (CPtr sz', y)) with (Some (x =? y)); cbn [obind]; cbv beta
+  | |- context [ceq ?S (CPtr ?sz ?rp, ?x) (CPtr ?sz' ?rp', ?y)] =>
+      change (ceq S (CPtr sz rp, x) (CPtr sz' rp', y)) with (Some (x =? y)); cbn [obind]; cbv beta
   | |- context [ceq ?S (CFlt, ?x) (CFlt, ?y)] =>
       change (ceq S (CFlt, x) (CFlt, y)) with (Some (feq S x y)); cbn [obind]; cbv beta
   end.
@@ -481,7 +481,8 @@ Proof. apply agrees_groups; [agree_int_guarded | agree_int_guarded | agree_int_g
 
 (* the other kinds compute once T is a constructor *)
 Ltac conc_exec :=
-  expose; cbn [binop ceq beq raw fst snd obind]; norms; splits; simp; try reflexivity; try congruence.
+  expose; unfold mul_sizeof; cbn [sizeof_pointee sizeof_rp_pointee binop ceq beq raw fst snd obind]; norms; splits; simp;
+  try reflexivity; try congruence.
 
 Lemma fiber_bool_agrees P : agrees0 P KBool fiber_bool.
 Proof.
@@ -500,7 +501,7 @@ Qed.
 Ltac agree_ptr :=
   intros o vol f Hsel Hf; destruct o; cbn in Hsel; try discriminate; cbn in Hf; try discriminate; injection Hf as <-; destruct vol;
   (eexists; split; [reflexivity|]); intros S T spur v a1 a2 HQ HS HT Hv H1 H2;
-  (destruct T as [| |sz| |]; try discriminate); cbn [ok arg_ty] in Hv, H1, H2; unfold ptrdiff_t in H1; cbn [ok] in H1;
+  (destruct T as [| |sz rp| |]; try discriminate); cbn [ok arg_ty] in Hv, H1, H2; unfold ptrdiff_t in H1; cbn [ok] in H1;
   destruct HQ as [HQ _]; try (rewrite (HQ eq_refl)); conc_exec.
 
 (* pointer ++x / x++ / --x / x-- *)
@@ -594,7 +595,7 @@ Lemma wrapped_ptr_agrees (G : opn -> cty -> Z -> Z -> Prop) P I : (forall T v a,
 Proof.
   intros HGL HI o vol f Hf; destruct o; cbn in Hf; try discriminate; injection Hf as <-; destruct vol;
   (eexists; split; [reflexivity|]); intros S T spur v a1 a2 HG HS HT Hv H1 H2;
-  (destruct T as [| |sz| |]; try discriminate); cbn [ok arg_ty] in Hv, H1, H2; unfold ptrdiff_t in H1; cbn [ok] in H1;
+  (destruct T as [| |sz rp| |]; try discriminate); cbn [ok arg_ty] in Hv, H1, H2; unfold ptrdiff_t in H1; cbn [ok] in H1;
   wrap_exec HI.
 Qed.
 
@@ -663,7 +664,7 @@ Lemma std_total k o f S T spur v a1 a2 :
 Proof.
   intros Hf HT Hv H1 H2.
   destruct k; destruct o; cbn in Hf; try discriminate; injection Hf as <-;
-    (destruct T as [w sg | | sz | |]; try discriminate); cbn [ty_of] in HT; std_unfold; cbn [arg_ty] in H1;
+    (destruct T as [w sg | | sz rp | |]; try discriminate); cbn [ty_of] in HT; std_unfold; cbn [arg_ty] in H1;
     try destruct spur; try (destruct (v =? a1));
     (eexists; split; [reflexivity|]); cbn [r_st fst snd ok]; auto;
     try (apply norm_in; assumption); try (apply (norm_in 64 false); reflexivity).
@@ -739,7 +740,7 @@ Qed.
 Lemma init_stores k S T spur v a1 a2 : ty_of k T = true -> ok T a1 = true -> fiber_init S T spur v a1 a2 = Some (a1, 0, a1).
 Proof.
   intros HT H1. unfold fiber_init. expose.
-  destruct k, T as [w sg | | sz | |]; try discriminate; cbn [ty_of] in HT; cbn [ok] in H1; cbn [cast fst snd]; norms; try reflexivity;
+  destruct k, T as [w sg | | sz rp | |]; try discriminate; cbn [ty_of] in HT; cbn [ok] in H1; cbn [cast fst snd]; norms; try reflexivity;
     cbn in H1; bools; subst; reflexivity.
 Qed.
 
